@@ -125,6 +125,12 @@ func init() {
 			t[p+"Int63n"] = randN(64)
 			t[p+"Int32N"] = randN(32)
 			t[p+"Int31n"] = randN(32)
+			t[p+"Shuffle"] = func(ex *Exec, fn *ssa.Function, a []Value) Value {
+				if ex.initMode > 0 {
+					return nil // a package initialiser shuffling a list: order left as written
+				}
+				panic(ex.unsupported("rand.Shuffle outside a package initialiser"))
+			}
 			t[p+"Uint32"] = func(ex *Exec, fn *ssa.Function, a []Value) Value {
 				ex.nowSeq++
 				return ex.input("rand#"+itoa(ex.nowSeq), 32)
